@@ -151,6 +151,7 @@ type exec struct {
 	cplan     *contPlan
 	layout    string
 	openGates int
+	stuck     string // a harness watchdog fired: the execution is not judged
 }
 
 func keysOf(ss []string) [][]byte {
@@ -242,6 +243,7 @@ func (x *exec) place(kind obKind, key string, heldKey string) *contender {
 				c.note = "waiter returned early: " + errStr(err)
 			case <-time.After(10 * time.Second):
 				c.note = "waiter never sent its lock request"
+				x.stuck = c.note
 			}
 		}
 	case obPrewriteLock:
@@ -271,6 +273,7 @@ func (x *exec) place(kind obKind, key string, heldKey string) *contender {
 			x.openGates--
 		case <-time.After(20 * time.Second):
 			c.note = "gate not reached"
+			x.stuck = c.note
 		}
 	case obNewerCommit:
 		txn, err := x.beginCont(false)
@@ -302,6 +305,7 @@ func (x *exec) endCont(c *contender, commit bool) {
 					c.endErr = errStr(err)
 				case <-time.After(60 * time.Second):
 					c.endErr = "gated Commit did not return"
+					x.stuck = c.endErr
 				}
 				x.openGates--
 			}
@@ -313,6 +317,9 @@ func (x *exec) endCont(c *contender, commit bool) {
 					c.note += " waiter: " + errStr(err)
 				case <-time.After(60 * time.Second):
 					c.note += " waiter did not return"
+					x.stuck = "the contender's waiting LockKeys did not return"
+					c.ended.Store(true)
+					return
 				}
 			}
 			var err error
@@ -853,6 +860,10 @@ func (e *env) runProgram(idx int, p *Program) (out outcome) {
 	}
 	if panicked != "" {
 		r.Violate("client-panic/"+cfg.backend+"/"+firstWords(panicked, 6), fmt.Sprintf("%s #%d: the client panicked running %s: %s", cfg, idx, p, panicked), detail(nil))
+	}
+	if x.stuck != "" {
+		r.Inconc("%s #%d: harness watchdog: %s (program: %s)", cfg, idx, x.stuck, p)
+		return
 	}
 	r.Eval(1)
 	if endClass == work.EUndetermined {
